@@ -55,6 +55,15 @@ class BUG(TTNTimeEvolution):
         self.state.ensure_root_orth_center()
         self.config: BUGConfig
 
+    def reset_to_initial_state(self):
+        """
+        Resets the current state to the initial state.
+
+        The BUG update requires the root to be the orthogonality center.
+        """
+        super().reset_to_initial_state()
+        self.state.ensure_root_orth_center()
+
     def truncation(self):
         """
         Truncates the tree after the time evolution.
